@@ -118,19 +118,23 @@ theorem primStep_some (root version : Str) (a : OutAsm) (na : NamedAsm) (h : pri
   unfold primStep at h
   simp [hp, hc, pure, Except.pure] at h
 
-theorem primLoop {ρ : Type} (n0 root version : Str)
-    (body : Option Str × Assembly → List Assembly × List (Option Str × Assembly) →
-      R (PyRt.Ctl (List Assembly × List (Option Str × Assembly)) ρ))
-    (hbody : ∀ a oth ret, body (item n0 a) (oth, ret) =
+/-- THE place that knows the order of the loop state of the `Primary` loop of `name_assemblies` (the translator sorts the carried
+    variables by the Lean text of their type, then by name): `other_asm`, `ret_asm` ↦ the generated tuple -/
+abbrev primSt (oth : List Assembly) (ret : List (Option Str × Assembly)) :
+    List (Option Str × Assembly) × List Assembly := (ret, oth)
+
+theorem primLoop {σ ρ : Type} (pk : List Assembly → List (Option Str × Assembly) → σ) (n0 root version : Str)
+    (body : Option Str × Assembly → σ → R (PyRt.Ctl σ ρ))
+    (hbody : ∀ a oth ret, body (item n0 a) (pk oth ret) =
       match primStep root version a with
       | .error e => .error e
-      | .ok none => .ok (.next (oth ++ [(item n0 a).2], ret))
-      | .ok (some na) => .ok (.next (oth, put ret na)))
+      | .ok none => .ok (.next (pk (oth ++ [(item n0 a).2]) ret))
+      | .ok (some na) => .ok (.next (pk oth (put ret na))))
     (asms : List OutAsm) (oth : List Assembly) (ret : List (Option Str × Assembly)) :
-    PyRt.forIn (asms.map (item n0)) (oth, ret) body =
+    PyRt.forIn (asms.map (item n0)) (pk oth ret) body =
       match asms.filterMapM (primStep root version) with
       | .error e => .error e
-      | .ok named => .ok (.fell (oth ++ (others asms).map (fun a => (item n0 a).2), named.foldl put ret)) := by
+      | .ok named => .ok (.fell (pk (oth ++ (others asms).map (fun a => (item n0 a).2)) (named.foldl put ret))) := by
   induction asms generalizing oth ret with
   | nil => simp [others]; rfl
   | cons x xs ih =>
@@ -174,7 +178,7 @@ theorem name_tie_dict (asms : List OutAsm) (n0 root version : Str) :
   rw [nameAssemblies_eq, dGet_item_isSome, dGet_item_isSome, sPrimary_eq]
   by_cases hP : (asms.any fun a => a.key = some sPrimary) = true
   · rw [if_pos hP, if_pos hP]
-    rw [primLoop n0 root version]
+    rw [primLoop primSt n0 root version]
     · cases hm : List.filterMapM (primStep root version) asms with
       | error e => rfl
       | ok named =>
